@@ -3,7 +3,8 @@ import os, re, subprocess, time, json
 
 ARRAI = "github.com/arr-ai/arrai/"
 
-RACE_SUBSET = 260          # cases (corpus first) replayed under the race detector in the thorough tier
+RACE_SUBSET = 240          # cases (corpus first) replayed under the race detector in the thorough tier
+RACE_PROCS = 6             # harness processes; each runs its share of the cases one at a time
 RACE_TIMEOUT_S = 900
 
 
@@ -58,27 +59,39 @@ def extra(ctx):
         return dict(coverage=dict(race_run="harness build with -race failed: " + blog[-300:]),
                     violations=[("C11-corpus-0", "race-harness-build-failed", "")])
     ids = list(ctx["cases"].keys())[:RACE_SUBSET]
-    path = os.path.join(ctx["build"], "run", f"C11-race-{os.getpid()}.tsv")
-    with open(path, "w") as f:
-        for cid in ids:
-            f.write(ctx["cases"][cid]["line"] + "\n")
     env = dict(os.environ, FROZEN_CONCURRENCY="0", C11_MARK="1", HARNESS_WORKERS="1", HARNESS_TIMEOUT_MS="120000",
                GORACE="halt_on_error=0 history_size=3")
-    try:
-        with open(path) as fin:
-            r = subprocess.run([exe], stdin=fin, stdout=subprocess.PIPE, stderr=subprocess.PIPE, text=True, env=env,
-                               timeout=RACE_TIMEOUT_S)
-        out, err = r.stdout, r.stderr
-    except subprocess.TimeoutExpired as e:
-        out = e.stdout.decode() if isinstance(e.stdout, bytes) else (e.stdout or "")
-        err = e.stderr.decode() if isinstance(e.stderr, bytes) else (e.stderr or "")
-    os.remove(path)
-    results = {}
-    for line in out.split("\n"):
-        if "\t" in line:
-            i, v = line.split("\t", 1)
-            results[i] = v.replace("\\t", "\t").replace("\\n", "\n").replace("\\\\", "\\")
-    reports = parse_race_reports(err)
+    procs = []
+    for k in range(RACE_PROCS):
+        share = ids[k::RACE_PROCS]
+        if not share:
+            continue
+        path = os.path.join(ctx["build"], "run", f"C11-race-{os.getpid()}-{k}.tsv")
+        with open(path, "w") as f:
+            for cid in share:
+                f.write(ctx["cases"][cid]["line"] + "\n")
+        fin, fout, ferr = open(path), open(path + ".out", "w+"), open(path + ".err", "w+")
+        procs.append((path, (fin, fout, ferr), subprocess.Popen([exe], stdin=fin, stdout=fout, stderr=ferr, env=env)))
+    results, reports, deadline = {}, [], time.time() + RACE_TIMEOUT_S
+    for path, files, pr in procs:
+        try:
+            pr.wait(timeout=max(1, deadline - time.time()))
+        except subprocess.TimeoutExpired:
+            pr.kill()
+            pr.wait()
+        fin, fout, ferr = files
+        fout.seek(0)
+        ferr.seek(0)
+        out, err = fout.read(), ferr.read()
+        for f in files:
+            f.close()
+        for suffix in ("", ".out", ".err"):
+            os.remove(path + suffix)
+        for line in out.split("\n"):
+            if "\t" in line:
+                i, v = line.split("\t", 1)
+                results[i] = v.replace("\\t", "\t").replace("\\n", "\n").replace("\\\\", "\\")
+        reports += parse_race_reports(err)
     ours = [r_ for r_ in reports if r_["in_arrai"]]
     noise = [r_ for r_ in reports if not r_["in_arrai"]]
     violations, seen = [], set()
@@ -100,10 +113,10 @@ def extra(ctx):
                 violations.append((cid, got, "result under -race differs from the serial result"))
     noise_tops = {}
     for r_ in noise:
-        k = " vs ".join(a["innermost"].split("(")[0][-70:] for a in r_["accesses"])
+        k = " vs ".join(re.sub(r"\[.*\]", "", a["innermost"]).replace("github.com/arr-ai/", "") for a in r_["accesses"])
         noise_tops[k] = noise_tops.get(k, 0) + 1
     cov = dict(race_run=dict(cases=len(ids), completed=len(results), wall_s=round(time.time() - t0, 1),
-                             env="FROZEN_CONCURRENCY=0, go build -race, one case at a time",
+                             env=f"FROZEN_CONCURRENCY=0, go build -race, {RACE_PROCS} processes, each one case at a time",
                              reports_total=len(reports), reports_in_arrai=len(ours),
                              arrai_reports=[dict(case=r_["case"], accesses=r_["accesses"]) for r_ in ours[:10]],
                              dependency_noise_reports=len(noise), dependency_noise=noise_tops,
